@@ -71,8 +71,17 @@ def scan_provided(files):
     names = set()
     pat = re.compile(r'^[A-Za-z_][\w\s\*]*?\b(?:STUB\((\w+)\)|(X_\w+))\s*\(', re.M)
     macro = re.compile(r'^(?:EXC_CTOR_CSTR|EXC_DTOR)\((\w+)\)', re.M)
-    for f in files:
+    seen = set()
+    work = list(files)
+    while work:
+        f = work.pop()
+        if f in seen or not os.path.exists(f):
+            continue
+        seen.add(f)
         txt = open(f).read()
+        for inc in re.findall(r'^\s*#\s*include\s+"([^"]+)"', txt, re.M):
+            for d in (os.path.dirname(f), RT):
+                work.append(os.path.join(d, inc))
         for m in pat.finditer(txt):
             # a definition, not a call: the match starts at column 0 with a type
             names.add('X_' + m.group(1) if m.group(1) else m.group(2))
@@ -111,36 +120,68 @@ class Unit:
             if rc != 0:
                 raise Inconclusive('clang failed on %s:\n%s' % (wrap, err[-3000:]))
             ll = open(self.path('ll')).read()
-            roots = sorted(set(re.findall(r'^define [^@]*@(w_\w+)\(', ll, re.M)))
-            if not roots:
+            self.all_roots = sorted(set(re.findall(r'^define [^@]*@(w_\w+)\(', ll, re.M)))
+            if not self.all_roots:
                 raise Inconclusive('no w_* roots in ' + wrap)
-            extra = [os.path.join(self.pdir, x) for x in cfg.get('extra_c', [])]
-            prov = scan_provided([os.path.join(RT, 'rt_model.c')] + extra + self.harness_files)
-            open(self.path('prov'), 'w').write('\n'.join(sorted(prov)))
-            cmd = [sys.executable, os.path.join(HERE, 'ir2c.py'), self.path('ll'), '-o', self.path('gen.c'), '--roots',
-                   ','.join(roots), '--provided', self.path('prov'), '--report', self.path('rep.json'),
-                   '--append', os.path.join(RT, 'rt_model.c')]
-            for e in extra:
-                cmd += ['--append', e]
-            for c in cfg.get('cuts', []):
-                cmd += ['--cut', c]
-            rc, out, err, _, _ = sh(cmd)
-            if rc != 0:
-                raise Inconclusive('ir2c failed for %s:\n%s' % (self.name, err[-3000:]))
-            rep = json.load(open(self.path('rep.json')))
-            self.info = {'roots': roots, 'functions': rep['functions'], 'unmodelled': rep['unmodelled'],
-                         'ir_lines': ll.count('\n'), 'c_lines': open(self.path('gen.c')).read().count('\n')}
-            # mode 2 object
-            rc, out, err, _, _ = sh(['gcc', '-O1', '-w', '-DVERIF_NATIVE_GEN', '-I' + RT, '-c', self.path('gen.c'), '-o',
-                                     self.path('gen.o')])
-            if rc != 0:
-                raise Inconclusive('gcc failed on generated C for %s:\n%s' % (self.name, err[-3000:]))
-            # mode 1 goto binary
-            rc, out, err, _, _ = sh(['goto-cc', '-DVERIF_CBMC', '-I' + RT, '-c', self.path('gen.c'), '-o', self.path('gen.gb')])
-            if rc != 0:
-                raise Inconclusive('goto-cc failed on generated C for %s:\n%s' % (self.name, (out + err)[-3000:]))
-            self.info['build_s'] = round(time.time() - t0, 2)
+            self.info = {'ir_lines': ll.count('\n'), 'clang_s': round(time.time() - t0, 2), 'functions': []}
+            self.gens = {}
             self.built = True
+
+    def gen(self, harness):
+        """generated C for the wrappers one harness file uses (roots = the w_* names it mentions)"""
+        self.build()
+        with self.lock:
+            g = self.gens.get(harness)
+            if g is None:
+                g = self.gens[harness] = {'lock': threading.Lock(), 'done': False}
+        with g['lock']:
+            if g['done']:
+                if g.get('error'):
+                    raise Inconclusive(g['error'])
+                return g
+            try:
+                self._gen(harness, g)
+            except Inconclusive as ex:
+                g['error'] = str(ex); g['done'] = True
+                raise
+            g['done'] = True
+            return g
+
+    def _gen(self, harness, g):
+        cfg = self.cfg
+        hfile = os.path.join(self.pdir, harness)
+        base = self.path('g_' + re.sub(r'\W', '_', harness))
+        extra = [os.path.join(self.pdir, x) for x in cfg.get('extra_c', [])]
+        htxt = open(hfile).read()
+        roots = [r for r in self.all_roots if re.search(r'\b%s\b' % re.escape(r), htxt)]
+        if not roots:
+            raise Inconclusive('harness %s references no wrapper of unit %s' % (harness, self.name))
+        prov = scan_provided([os.path.join(RT, 'rt_model.c'), hfile] + extra)
+        open(base + '.prov', 'w').write('\n'.join(sorted(prov)))
+        cmd = [sys.executable, os.path.join(HERE, 'ir2c.py'), self.path('ll'), '-o', base + '.c', '--roots', ','.join(roots),
+               '--provided', base + '.prov', '--report', base + '.rep.json', '--append', os.path.join(RT, 'rt_model.c')]
+        for e in extra:
+            cmd += ['--append', e]
+        for c in cfg.get('cuts', []):
+            cmd += ['--cut', c]
+        t0 = time.time()
+        rc, out, err, _, _ = sh(cmd)
+        if rc != 0:
+            raise Inconclusive('ir2c failed for %s/%s:\n%s' % (self.name, harness, err[-3000:]))
+        rep = json.load(open(base + '.rep.json'))
+        g.update(c=base + '.c', o=base + '.o', gb=base + '.gb', roots=roots, functions=rep['functions'], unmodelled=rep['unmodelled'], cut=rep.get('cut', []))
+        nb = cfg.get('per_harness', {}).get(harness, {}).get('new_block', cfg.get('new_block', 64))
+        gdefs = (['-DVERIF_NEW_BLOCK=%d' % nb] if nb else []) + ['-D' + x for x in cfg.get('gen_defs', [])]
+        rc, out, err, _, _ = sh(['gcc', '-O1', '-w', '-DVERIF_NATIVE_GEN', '-I' + RT] + gdefs + ['-c', g['c'], '-o', g['o']])
+        if rc != 0:
+            raise Inconclusive('gcc failed on generated C for %s/%s:\n%s' % (self.name, harness, err[-3000:]))
+        rc, out, err, _, _ = sh(['goto-cc', '-DVERIF_CBMC', '-I' + RT] + gdefs + ['-c', g['c'], '-o', g['gb']])
+        if rc != 0:
+            raise Inconclusive('goto-cc failed on generated C for %s/%s:\n%s' % (self.name, harness, (out + err)[-3000:]))
+        with self.lock:
+            self.info['functions'] = sorted(set(self.info['functions']) | set(rep['functions']))
+            self.info.setdefault('harness', {})[harness] = {'roots': roots, 'functions': len(rep['functions']), 'unmodelled_externals': rep['unmodelled'], 'cut_functions': rep.get('cut', []),
+                                                            'c_lines': open(g['c']).read().count('\n'), 'gen_s': round(time.time() - t0, 2)}
 
     def build_real(self):
         """mode 3: the real code, real libstdc++, ASan+UBSan"""
@@ -191,7 +232,7 @@ def build_native(unit, q, work, real):
         unit.build_real()
         cmd = ['g++'] + san + ['-Wl,--gc-sections', ho, mo, unit.path('real.o'), '-o', exe, '-lz', '-lpthread', '-lm']
     else:
-        cmd = ['gcc', ho, mo, unit.path('gen.o'), '-o', exe, '-lm']
+        cmd = ['gcc', ho, mo, unit.gen(q.d['harness'])['o'], '-o', exe, '-lm']
     rc, out, err, _, _ = sh(cmd)
     if rc != 0:
         raise Inconclusive('link failed (%s, %s):\n%s' % (q.name, 'real' if real else 'generated', err[-3000:]))
@@ -268,7 +309,7 @@ def run_cbmc(unit, q, work, tier):
     rc, out, err, _, _ = sh(['goto-cc', '-DVERIF_CBMC', '-I' + RT, '-I' + unit.pdir] + defs_flags(d.get('defs', {})) + ['-c', hfile, '-o', hgb])
     if rc != 0:
         raise Inconclusive('goto-cc failed on harness %s:\n%s' % (hfile, (out + err)[-3000:]))
-    rc, out, err, _, _ = sh(['goto-cc', unit.path('gen.gb'), hgb, '-o', qgb])
+    rc, out, err, _, _ = sh(['goto-cc', unit.gen(d['harness'])['gb'], hgb, '-o', qgb])
     if rc != 0:
         raise Inconclusive('goto-cc link failed for %s:\n%s' % (q.name, (out + err)[-3000:]))
     cmd = ['cbmc', qgb, '--unwind', str(d.get('unwind', 8)), '--unwinding-assertions', '--drop-unused-functions',
@@ -303,12 +344,15 @@ def run_cbmc(unit, q, work, tier):
     wit = [r for r in fails if 'WITNESS' in r.get('description', '')]
     unw = [r for r in fails if 'unwinding assertion' in r.get('description', '')]
     unm = [r for r in fails if 'UNMODELLED' in r.get('description', '')]
-    other = [r for r in fails if r not in wit and r not in unw and r not in unm]
+    bnd = [r for r in fails if 'BOUND:' in r.get('description', '')]
+    other = [r for r in fails if r not in wit and r not in unw and r not in unm and r not in bnd]
     q.res['witness_reachable'] = bool(wit)
     if unw and not other:
         raise Inconclusive('%s: unwinding bound too small (%s)' % (q.name, '; '.join(sorted(set(r.get('property', '') for r in unw))[:5])))
     if unm and not other:
         raise Inconclusive('%s: unmodelled external reached' % q.name)
+    if bnd and not other:
+        raise Inconclusive('%s: a stated model bound is too small (%s)' % (q.name, bnd[0].get('description')))
     if other:
         # candidate counterexample(s): prefer harness assertions ("H: ...")
         other.sort(key=lambda r: (0 if r.get('description', '').startswith('H: ') else 1))
@@ -452,7 +496,7 @@ def main():
         def work_one(q):
             u = units[q.d['unit']]
             try:
-                u.build()
+                u.gen(q.d['harness'])
                 if not a.no_tv and q.d.get('tv', True):
                     tv = translation_validation(u, q, work, seed, q.d.get('tv_runs', 60))
                     q.res['translation_validation'] = tv
@@ -540,6 +584,10 @@ def main():
         else:
             log('%s %s: %d queries discharged in %.1fs' % (pid, tier, len(allq), wall))
             rc_final = 0
+    except Exception:
+        import traceback
+        traceback.print_exc()
+        rc_final = 2
     finally:
         if not a.keep:
             shutil.rmtree(work, ignore_errors=True)
